@@ -4,6 +4,8 @@ Theorems about the executable model `Kit.CryptoGlue` (model of /repo/crypto's gl
 abstract primitives).  Helper lemmas: `KitProofs/Lemmas/CryptoGlue*.lean`.
 -/
 import KitProofs.Lemmas.CryptoGlueNF
+import KitProofs.Lemmas.CryptoGlueKWSpec
+import KitProofs.Lemmas.CryptoLaws
 namespace Kit.CryptoGlue
 open Kit Kit.CryptoGlue.Facts
 
@@ -134,6 +136,44 @@ theorem unwrap_prefix_witness :
       (unwrapPreFix idCipher [1, 2, 3]).isPanic = true ∧
       unwrap idCipher (w ++ extra) = .err eKwSize := by
   refine ⟨witnessWrapped, [0], by decide, ?_, ?_, ?_, ?_, ?_⟩ <;> decide
+
+/-! ### the model of `Wrap` is RFC 3394 -/
+
+/-- The counter xor-ed into `A` is all 64 bits of `t = n·j+i`, big-endian: the model's `be64 t` is
+the `be64Bytes` of the 64-bit word `t` of the RFC-shaped specification, and its value as a
+big-endian number is `t mod 2^64` (a counter folded into its low byte would fail both). -/
+theorem wrap_counter_full_width (t : Nat) :
+    be64 t = Kit.Crypto.be64Bytes t.toUInt64 ∧ fromBe64 (be64 t) = t % 18446744073709551616 ∧
+    (be64 t).length = 8 :=
+  ⟨(be64Bytes_eq t).symm, fromBe64_be64 t, rfl⟩
+
+example : be64 (43 * 5 + 43) ≠ be64 ((43 * 5 + 43) % 256) := by decide
+
+/-- For EVERY block function and every key data in the accepted set (any length, so also the
+lengths where the step counter exceeds one or two bytes) the Go-shaped model `wrap` computes
+exactly RFC 3394 §2.2.1 as written index by index in `Kit.Crypto.kwWrapWith`
+(`A = MSB64(B) ⊕ t`, `t = n·j+i`, steps `1 … 6n`).  T2 ties the real `aeskw.Wrap` to this model. -/
+theorem wrap_is_rfc3394 (bc : BlockCipher) (cek : Bytes) (h8 : cek.length % 8 = 0)
+    (h16 : 16 ≤ cek.length) : wrap bc cek = .ok (Kit.Crypto.kwWrapWith bc.E cek) :=
+  wrap_eq_kwWrapWith bc cek h8 h16
+
+/-- … and whatever the model's `unwrap` accepts, the RFC-shaped `kwUnwrapWith` accepts with the
+same result (for a permutation cipher). -/
+theorem unwrap_agrees_with_rfc3394 (bc : BlockCipher) (hP : bc.Perm) (c p : Bytes)
+    (h : unwrap bc c = .ok p) : Kit.Crypto.kwUnwrapWith bc.D c = some p := by
+  have hw := unwrap_accepts_only_wrap bc hP c p h
+  -- the accepted p is in wrap's domain
+  have hdom : p.length % 8 = 0 ∧ 16 ≤ p.length := by
+    unfold wrap at hw
+    by_cases h8 : p.length % 8 ≠ 0
+    · rw [if_pos h8] at hw; cases hw
+    · by_cases h16 : p.length < 16
+      · rw [if_neg h8, if_pos h16] at hw; cases hw
+      · exact ⟨by omega, by omega⟩
+  rw [wrap_eq_kwWrapWith bc p hdom.1 hdom.2] at hw
+  injection hw with hw
+  rw [← hw]
+  exact Kit.Crypto.kwUnwrapWith_kwWrapWith bc.E bc.D hP.lenE hP.DE p hdom.1 hdom.2
 
 /-! ## 2. PKCS#7 -/
 
